@@ -883,7 +883,8 @@ def call_external(ip, q, args, kw):
     if q.startswith("absl.logging.") or q.startswith("logging."):
         # no effect on the computation; recorded in the ghost call log (a clause may require
         # that a warning was emitted)
-        ip.call_log.setdefault(q, []).append(I.NS(args=I.NS(args=tuple(args)), result=None))
+        if not getattr(ip, "defining", 0):
+            ip.call_log.setdefault(q, []).append(I.NS(args=I.NS(args=tuple(args)), result=None))
         return None
     if q.startswith("typing."):
         return None
